@@ -269,6 +269,20 @@ def run_messages(spec, rec):
         for r in range(spec['rounds']):
             mode = ('required', 'all', 'random', 'random')[(r + rng.randint(0, 3)) % 4]
             text, lines, rn = build_message(rng, v, name, node, mode, 1 if mode == 'required' else 3)
+            if rng.random() < 0.4:
+                # canonical messages may hold segments the structure does not list (Z segments, segments of other types)
+                parts = text.split('\r')
+                instruct = set(tables.segment_name_places(node))
+                others = [s_ for s_ in sorted(tables.segments(v)) if s_ not in instruct and tables.segments(v)[s_]
+                          and gen.usable_rows(v, s_)]
+                for _ in range(rng.randint(1, 2)):
+                    if rng.random() < 0.5 or not others:
+                        extra = 'Z%s%s|%s' % (rng.choice('ABZ01'), rng.choice('ABZ19'), gen.leaf_text(rng, er7ref.std(v)))
+                    else:
+                        extra, _ = gen.segment_line(rng, v, rng.choice(others), gen.full_ec(er7ref.std(v)), max_fields=2)
+                    parts.insert(rng.randint(1, len(parts)), extra)
+                text = '\r'.join(parts)
+                rec.count('messages_with_out_of_structure_segments')
             for fg in (True, False):
                 check_message(parser, v, name, text, fg, rec)
             if r == 0 and rec.counters.get('message_identity_comparisons', 0) < 4:
